@@ -621,7 +621,7 @@ impl FileTransferPlugin {
     ) {
         if let Some(pat) = glob {
             if file_transfer.state == FileTransferState::Complete
-                && !file_transfer.file_data.is_empty()
+                && file_transfer.file_data.capacity() > 0
                 && pat.matches(&file_transfer.file_name)
             {
                 // try to save to the path: (but only the base name not the full path from the file_name  (e.g. not /tmp/.../foo.txt))
@@ -674,7 +674,7 @@ impl FileTransferPlugin {
             .transfers
             .iter_mut()
             .enumerate()
-            .filter(|(_, t)| !t.file_data.is_empty() && t.state == FileTransferState::Complete)
+            .filter(|(_, t)| t.file_data.capacity() > 0 && t.state == FileTransferState::Complete)
             .collect::<Vec<_>>();
         if !completed_transfers.is_empty() {
             if let Some(internal_data) = &mut state.internal_data {
